@@ -112,6 +112,12 @@ Definition legacy_update_ops (w : world) (c : cfg) : list fsop * outcome :=
            end
        end.
 
+(* configuration of a concrete call: c_dstdir_ok is read off the initial state *)
+Definition cfg_for (w : world) (st : fs) (pr : proto_rel) (out : option ppath) (inplace same_fs : bool) : cfg :=
+  let c0 := mkcfg pr out inplace same_fs true in
+  mkcfg pr out inplace same_fs
+        (match dest w c0 with Some o => is_dir st (dstdir_of w o) | None => true end).
+
 (* ------------------------------------------------------- canonical output *)
 Definition show_outcome (o : outcome) : pstr :=
   match o with
